@@ -17,7 +17,7 @@ from tools import common
 LEVEL = "proof"
 MANIFEST = dict(
     category="proof",
-    text="Lean 4 theorems (42 obligations, all inputs) over a hand model of the splicer machinery, composed with the "
+    text="Lean 4 theorems (43 obligations, all inputs) over a hand model of the splicer machinery, composed with the "
          "write_lines model of C13. (1) precedence: force > user > default, default retention and added flag, markers enclose "
          "exactly the selected body, push/update_top keep every user entry and pop undoes push; files are read into one "
          "dictionary, splicer_code is merged per block (code_beats_files, file_blocks_survive). (2) carriage: for every body "
@@ -51,7 +51,10 @@ MANIFEST = dict(
          "and may not vanish from a language the declaration is part of (it forces the wrapper of a "
          "function callable directly); user code for the file-level C blocks of a class with no generated code makes its "
          "files appear; _create_splicer's return value is true for a user body or a default and false otherwise; "
-         "splicer_code lists may hold empty YAML items; in every recorded real generation each _pop_splicer(name) leaves the "
+         "splicer files use every marker style (any comment leader, text after the name such as a closing */); "
+         "splicer_code blocks may be lists with empty YAML items or block scalars (codeScalar_listify); several libraries wrapped "
+         "one after the other in ONE process: a run that supplies nothing shows none of an earlier run's user code and its own "
+         "defaults; in every recorded real generation each _pop_splicer(name) leaves the "
          "level that was entered under that name and the stack is empty at the end (generated libraries with plain structs, "
          "classes, nested namespaces; all four wrappers); generated files of all four languages fed back "
          "as splicer files reproduce the same code. "
@@ -95,6 +98,7 @@ THEOREMS = {
         "Shroud.Splicer.wrap_namespace_discipline",
         "Shroud.Splicer.wrapClassList_names",
         "Shroud.Splicer.wrapClasses_names",
+        "Shroud.Splicer.codeScalar_listify",
         "Shroud.Splicer.carriage_unrestricted_false",
         "Shroud.Splicer.outside_ignored",
         "Shroud.Splicer.outside_ignored_tail",
@@ -127,6 +131,8 @@ def flatten(nested, prefix=()):
         if isinstance(v, dict):
             out.append(("D", p, None))
             out.extend(flatten(v, p))
+        elif isinstance(v, str):        # a splicer_code block scalar
+            out.append(("S", p, v))
         elif isinstance(v, (list, tuple)):
             out.append(("M" if any(x is None for x in v) else "L", p, list(v)))
         else:
@@ -141,6 +147,8 @@ def enc_dict(entries):
     for kind, p, body in entries:
         if kind == "L":
             toks.append("L/%s/%s" % (common.encs(list(p)), common.encs(body)))
+        elif kind == "S":
+            toks.append("S/%s/%s" % (common.encs(list(p)), common.enc(body)))
         elif kind == "M":       # a splicer_code list with YAML nulls
             toks.append("M/%s/%s" % (common.encs(list(p)), "&".join("n" if x is None else "s" + common.enc(x) for x in body)))
         else:
@@ -324,13 +332,14 @@ BODY = ["return 1;", "  x = y + z  ", "", "   ", "call foo(a,\tb)", "i++ +", "+"
 def gen_valid_block(r, names=NAMES):
     n = r.choice(names)
     pre = r.choice(["// ", "! ", "  // ", "    ! ", "-- "])
-    lines = [pre + "splicer begin " + n + r.choice(["", " ", "  trailing words"])]
+    tail = r.choice(["", "", " */", "  words", " -->"])
+    lines = [pre + "splicer begin " + n + (tail or r.choice(["", " ", "  trailing words"]))]
     for _ in range(r.randrange(0, 4)):
         b = r.choice(BODY)
         if "splicer end" in b:
             b = "splicer end a"     # column one: collected, not a marker
         lines.append(b)
-    lines.append(pre + "splicer end " + n)
+    lines.append(pre + "splicer end " + n + tail)
     return lines
 
 
@@ -372,6 +381,8 @@ def gen_nested(r, depth=0, nulls=False):
             d[k] = gen_nested(r, depth + 1, nulls)
         else:
             d[k] = [None if nulls and r.random() < 0.2 else r.choice(BODY + ["a", "b", "foo"]) for _ in range(r.randrange(0, 4))]
+            if nulls and r.random() < 0.2:
+                d[k] = r.choice(["", "a", "a\n", "a\nb", "a\n\nb\n", "\n", " x = 1 \n+\n", "// line 1\nint x;\n"])
     return d
 
 
@@ -756,6 +767,7 @@ SHAPE_STATS = {}      # "<route>:<shape>" -> count, printed into the evidence no
 EXT_STATS = {}        # "<yaml key>-key:<file extension>" -> count
 FEED_STATS = {}       # language -> generated files fed back as splicer files
 KEYSET_STATS = {}     # key subsets supplied on declarations
+MARKER_STATS = {}     # marker line styles of the generated splicer files
 NS_STATS = {}         # shapes of the namespace trees of generated libraries
 FORM_STATS = {}       # "<yaml form>:<shape>" -> count
 
@@ -901,8 +913,8 @@ class Lib:
         strip_decl_splicers(self.base)      # the baseline has no user splicer of any kind
         self.base.setdefault("options", {})["show_splicer_comments"] = True
 
-    def run(self, doc, cmd_files=()):
-        """-> (returncode, stdout, {relpath: text}, workdir)"""
+    def run(self, doc, cmd_files=(), inproc=False):
+        """-> (returncode, stdout, {relpath: text}, workdir); inproc: main_with_args in this very process"""
         import yaml
         from tools import shroudrun
         self.n += 1
@@ -920,7 +932,17 @@ class Lib:
         cmd = ["--outdir-c-fortran", os.path.join(wd, "cf"), "--outdir-python", os.path.join(wd, "py"),
                "--outdir-lua", os.path.join(wd, "lua"), "--path", wd + ":" + self.tmp + ":" + self.reg,
                "--option", "debug_testsuite=true"] + self.extra
-        rc, out = shroudrun.run_fresh([ypath] + list(cmd_files), wd, cmd)
+        if inproc:
+            opts, lang, wv = shroudrun.parse_cmdline(self.extra)
+            cfg, exc, out = shroudrun.run_inproc([ypath] + list(cmd_files), wd, logdir=os.path.join(wd, "log"),
+                                                 options=["debug_testsuite=true"] + opts, language=lang, write_version=wv,
+                                                 path=[wd, self.tmp, self.reg], outdir_c_fortran=os.path.join(wd, "cf"),
+                                                 outdir_python=os.path.join(wd, "py"), outdir_lua=os.path.join(wd, "lua"))
+            rc = 0 if exc is None else 1
+            if exc is not None:
+                out += "\n%s: %s" % (type(exc).__name__, exc)
+        else:
+            rc, out = shroudrun.run_fresh([ypath] + list(cmd_files), wd, cmd)
         files = {}
         for sub in ("cf", "py", "lua"):
             for fn in sorted(os.listdir(os.path.join(wd, sub))):
@@ -931,14 +953,18 @@ class Lib:
     def write_splicer_file(self, wd_name, lang, blocks, r, ext=None):
         """A splicer file with junk between blocks; returns its path."""
         path = os.path.join(self.tmp, "%s-%s%s" % (wd_name, lang, ext or SUFFIX[lang]))
-        c = r.choice(["//", "!", "  //", "    ! ", "--"])
+        # marker lines as users write them: any comment leader, possibly text after the name (a closing */, words)
+        c, tail = r.choice([("//", ""), ("!", ""), ("  //", ""), ("    ! ", ""), ("--", ""), ("/*", " */"), ("  /*", " */"),
+                            ("//", "   trailing words"), ("!", " ! F90"), ("<!--", " -->")])
+        k = "%s...%s" % (c.strip(), tail.strip())
+        MARKER_STATS[k] = MARKER_STATS.get(k, 0) + 1
         with open(path, "w") as fp:
             fp.write("text before the first block is ignored\nsplicer begin not.a.marker.in.column.one\n")
             for name, body in blocks:
-                fp.write("%s splicer begin %s\n" % (c, name))
+                fp.write("%s splicer begin %s%s\n" % (c, name, tail))
                 for l in body:
                     fp.write(l + "\n")
-                fp.write("%s splicer end %s\n" % (c, name))
+                fp.write("%s splicer end %s%s\n" % (c, name, tail))
                 fp.write(r.choice(["", "junk between blocks\n", "\n"]))
         return path
 
@@ -991,6 +1017,9 @@ def nest_nulls(blocks, r):
         for k, v in n.items():
             if isinstance(v, dict):
                 walk(v)
+            elif v and r.random() < 0.3:
+                n[k] = _Lit("\n".join(v) + "\n")       # C_definitions: | ...
+                SHAPE_STATS["splicer_code:block-scalar"] = SHAPE_STATS.get("splicer_code:block-scalar", 0) + 1
             elif r.random() < 0.5:
                 n[k] = [None if x == "" else x for x in v]
                 if any(x is None for x in n[k]):
@@ -1663,7 +1692,9 @@ def oracle_carriage(ctx, tmp):
     for kind, body in cases:
         fname = os.path.join(tmp, "carriage.c")
         with open(fname, "w", newline="") as fp:
-            fp.write("// splicer begin function.foo\n" + "".join(l + "\n" for l in body) + "// splicer end function.foo\n")
+            c, tail = r.choice([("//", ""), ("/*", " */"), ("!", " trailing text"), ("  --", "")])
+            fp.write("%s splicer begin function.foo%s\n" % (c, tail) + "".join(l + "\n" for l in body)
+                     + "%s splicer end function.foo%s\n" % (c, tail))
         d = {}
         splicer.get_splicers(fname, d)
         ind = r.randrange(0, 3)
@@ -1689,6 +1720,56 @@ def oracle_carriage(ctx, tmp):
                      % (body, got, ind, t[4]), {"body": body})
         elif kind == "clean":
             ctx.nontrivial("carriage:" + repr(body))
+
+
+def oracle_sequence(ctx, tmp, names):
+    """Several libraries wrapped one after the other in ONE process (shroud.main.main_with_args / create_wrapper as a
+    library call): the user code of one run may not show up in a later run that did not supply it."""
+    r = common.rng("c12-sequence")
+    toks = []
+    for step, libname in enumerate(names):
+        lib = Lib(libname, tmp)
+        lib.name = "%s-seq%d" % (libname, step)
+        rc, out, base_files, _ = lib.run(lib.base)             # fresh process: what this library looks like on its own
+        if rc != 0:
+            raise RuntimeError("baseline run of %s failed: %s" % (libname, out[-400:]))
+        base_h = harvest(base_files)
+        give = step % 2 == 0                                    # every other run supplies user code for every block
+        doc = copy.deepcopy(lib.base)
+        cmd = []
+        sup = {}
+        if give:
+            for lang, ns in base_h.items():
+                ns = [n for n in sorted(ns) if not any(m.startswith(n + ".") for m in ns)]
+                for n in ns:
+                    t = "seq%dx%d" % (step, len(toks))
+                    toks.append("tok_%s();" % t)
+                    sup.setdefault(lang, {})[n] = gen_clean_body(r, t, "sequence")
+            langs = sorted(sup)
+            for lang in langs[::2]:
+                cmd.append(lib.write_splicer_file("%s-seq-%d" % (libname, step), lang, sorted(sup[lang].items()), r))
+            if langs[1::2]:
+                doc["splicer_code"] = {lang: nest(sorted(sup[lang].items())) for lang in langs[1::2]}
+        rc, out, files, _ = lib.run(doc, cmd_files=cmd, inproc=True)
+        rp = {"sequence": list(names), "step": step, "library": libname, "supplies_user_code": give}
+        ctx.count(1)
+        if rc != 0:
+            ctx.fail("sequence:%d:%s:run-failed" % (step, libname), "in-process run %d (%s) failed: %s" % (step, libname, out[-300:]), rp)
+            continue
+        if give:
+            check_supplied(ctx, lib, "in-process-run-%d" % step, files, base_h, sup, rp)
+        else:
+            leaked = [t for t in toks if any(t in text for text in files.values())]
+            h = harvest(files)
+            changed = [(lang, n) for lang, ns in base_h.items() for n, occ in ns.items()
+                       if [b for (_f, _k, b) in occ] != [b for (_f, _k, b) in h.get(lang, {}).get(n, [])]]
+            if leaked or changed:
+                ctx.fail("sequence:user-code-of-an-earlier-run-appears",
+                         "library %s wrapped in the same process after %s (which had user splicers) and supplying none: "
+                         "%d of its blocks differ from its own output, e.g. %s; foreign user code present: %s"
+                         % (libname, names[:step], len(changed), changed[:2], leaked[:2]), rp)
+            else:
+                ctx.nontrivial("sequence:%d:%s" % (step, libname))
 
 
 def oracle_reader(ctx, tmp):
@@ -1743,6 +1824,7 @@ def run(ctx):
     NS_STATS.clear()
     FEED_STATS.clear()
     KEYSET_STATS.clear()
+    MARKER_STATS.clear()
     ok = ctx.lean(MODULES, THEOREMS, extra_targets=("drv_splicer",))
     ctx.cov["trusted_base"] = [
         "Lean 4.33.0 kernel; axioms within {propext, Classical.choice, Quot.sound}",
@@ -1776,6 +1858,8 @@ def run(ctx):
         oracle_carriage(ctx, tmp)
         oracle_reader(ctx, tmp)
         static_scan(ctx)
+        oracle_sequence(ctx, tmp, ["tutorial", "tutorial", "classes", "classes"] if not thorough else
+                        ["tutorial", "tutorial", "classes", "namespace", "strings", "strings", "struct-cxx", "classes"])
         from tools import shroudrun
         libs = ["tutorial", "classes", "strings", "namespace"] if not thorough else [c[0] for c in shroudrun.CORPUS]
         for name in libs:
@@ -1800,6 +1884,7 @@ def run(ctx):
         ctx.note("yaml_splicer_key_vs_extension", dict(sorted(EXT_STATS.items())))
         ctx.note("generated_files_fed_back_by_language", dict(sorted(FEED_STATS.items())))
         ctx.note("declaration_key_subsets", dict(sorted(KEYSET_STATS.items())))
+        ctx.note("splicer_file_marker_styles", dict(sorted(MARKER_STATS.items())))
         ctx.note("body_shapes_by_route", dict(sorted(SHAPE_STATS.items())))
         ctx.note("declaration_yaml_forms", dict(sorted(FORM_STATS.items())))
     finally:
